@@ -189,6 +189,11 @@ def known_findings():
     return json.load(open(p)).get('findings', [])
 
 
+def jseed(seed, *idx):
+    """a per-job seed that is NOT correlated with the job's position in an enumeration (variants are chosen by seed % k in the harness)"""
+    return int(hashlib.sha256(('%s/%s' % (seed, '/'.join(map(str, idx)))).encode()).hexdigest()[:15], 16)
+
+
 def digest(obj):
     return hashlib.sha256(json.dumps(obj, sort_keys=True, default=str).encode()).hexdigest()[:16]
 
